@@ -381,7 +381,11 @@ def gen_rfc_case(rng):
             z.append(MXerr(nm, rng.choice([2, 4, 5])))
     r = rng.random()
     if r < 0.5:
-        z.append(N(client, *[rng.choice(names + ['mail.a.example', 'xa.example', 'a.example.com', 'sub.a.example']) for _ in range(rng.choice([1, 1, 2, 3, 10, 11]))]))
+        ptrs = [rng.choice(names + ['mail.a.example', 'xa.example', 'a.example.com', 'sub.a.example', 'mail.notb.example']) for _ in range(rng.choice([1, 1, 2, 3, 10, 11]))]
+        z.append(N(client, *ptrs))
+        for n in set(ptrs) - set(names):
+            if rng.random() < 0.6:                      # forward-confirm the names outside the universe too (label boundary of ptr)
+                z.append((A if v4 else A6)(n, client))
     elif r < 0.56:
         z.append(Nerr(client, rng.choice([2, 3])))
     for nm in ['x.' + n for n in names[:2]]:
@@ -389,3 +393,34 @@ def gen_rfc_case(rng):
     rng.shuffle(z)
     dom = rng.choice(names)
     return case(dom, client, z, mailfrom=rng.choice(['user@' + dom, '']), helo='helo.example.org', rhost=rng.choice(['rh.example', 'rh.example', '']))
+
+def gen_ptr_case(rng):
+    """the ptr mechanism at the label boundary: forward-confirmed PTR names that end in the target's characters with and
+    without a dot in front, equal length but different, shorter, the target followed by other labels.  Records stay inside
+    the strict grammar so that the RFC reference gives the expected result."""
+    client = ip16(rng.choice(V4[:5] + V6[:4]))
+    v4 = is_v4(client)
+    T = rng.choice(['a.example', 'example.com', 'b.example', 'mail.c.example'])
+    other = 'x' + T[1:] if T[0] != 'x' else 'y' + T[1:]
+    pool = ['x' + T, 'mail.not' + T, 'not' + T, T + '.evil.test', T, 'mail.' + T, 'a.b.' + T, other, T[1:], T[2:], 'x.' + other, '-' + T, 'mail' + T,
+            T.split('.', 1)[1], 'q.' + T.split('.', 1)[1]]
+    names = [rng.choice(pool) for _ in range(rng.choice([1, 1, 2, 3, 4]))]
+    if rng.random() < 0.5:
+        names[rng.randrange(len(names))] = rng.choice(pool[:4])      # a name that ends in the target without a label boundary
+    dom = T if rng.random() < 0.6 else 'd.example'
+    q = rng.choice(['', '', '+', '-', '~', '?'])
+    mech = rng.choice(['ptr', 'ptr:' + T]) if dom == T else 'ptr:' + T
+    rec = 'v=spf1 ' + rng.choice(['', 'ip4:10.9.8.7 ', 'include:e.example ']) + q + mech + rng.choice([' -all', ' ?all', '', ' ~all'])
+    z = [txt(dom, rec), txt('e.example', 'v=spf1 ?all')]
+    fam = A if v4 else A6
+    otheraddr = '10.1.1.1' if v4 else '2001:db8::99'
+    done = set()
+    for n in names:
+        if n in done: continue
+        done.add(n)
+        r = rng.random()
+        if r < 0.8: z.append(fam(n, *( [otheraddr] if rng.random() < 0.3 else []), client))
+        elif r < 0.9: z.append(fam(n, otheraddr))
+    z.append(N(client, *names))
+    rng.shuffle(z)
+    return case(dom, client, z, mailfrom=rng.choice(['user@' + dom, '']), helo='helo.example.org', rhost=rng.choice(names))
